@@ -451,9 +451,13 @@ End Sb.
                     } }
      wrapper (runs on the inner source's goroutine):
                   handlerLock.Lock()                                     IWant   -> point 25 (mux.handler_locked)
+                  fixed: if IsTerminating { handlerLock.Unlock(); return error }   ILocked (no handler call, no point 26)
                   err := handler(blk)                                    ILocked / IInH
                   handlerLock.Unlock()                                           -> point 26 (mux.handler_unlocked)
                   if err != nil { s.Shutdown(err) }; return err          IUnl / ISdBusy / IFailRet
+     The test of the terminating channel and the handler call are made under handlerLock with no synchronisation
+     operation and no schedule point between them: ONE atomic step (ILocked), as for hub.Subscription (PChk) and
+     FileSource (RChk).  Unfixed code (`step false`): no test, the handler is called whatever the state of the shutter.
      OnTerminating callback: sourcesLock.Lock(); for each non-nil sources[i]: Shutdown(nil); Unlock()
    sourcesLock is held by the Run thread exactly while it is at PLoop / PInit; the callback takes it
    for one atomic step (inner Shutdowns do not block), so it is enabled iff Run is not at PLoop / PInit.
@@ -557,7 +561,7 @@ Module Mx.
 
   Definition set_inner (s : state) (k : nat) (f : inner -> inner) := set_inners s (upd (inners s) k f).
 
-  Definition step_inner (k : nat) (s : state) : state :=
+  Definition step_inner (fixed : bool) (k : nat) (s : state) : state :=
     match nth_error (inners s) k with
     | None => s
     | Some i =>
@@ -576,6 +580,9 @@ Module Mx.
             | None => emit (set_hholder (set_inner s k (set_i_pc (ILocked b ok))) (Some k)) (EPoint 25)
             end
         | ILocked b ok =>
+            if fixed && terminating s
+            then set_hholder (set_inner s k (set_i_pc IFailRet)) None           (* unlock; return an error: no handler call *)
+            else
             let s1 := set_inner s k (set_i_pc (IInH b ok)) in
             let s2 := set_overlap s1 (overlap s || Nat.ltb 0 (hactive s)) in
             emit (set_hactive (set_hbegun s2 (S (hbegun s))) (S (hactive s))) (EHBegin k b)
@@ -607,8 +614,8 @@ Module Mx.
     | XDone => s
     end.
 
-  Definition step (s : state) (t : tid) : state :=
-    match t with TRun => step_run s | TX => step_x s | TIn k => step_inner k s end.
+  Definition step (fixed : bool) (s : state) (t : tid) : state :=
+    match t with TRun => step_run s | TX => step_x s | TIn k => step_inner fixed k s end.
 
   Definition returned (s : state) : bool := match pcr s with PRet => true | _ => false end.
   Definition done (s : state) : bool := returned s && terminated s.
